@@ -51,6 +51,9 @@ SLICES = {
                     ops=("Select", "Where")),
                lambda q: T.has(q[1], {"app0"}) and T.count_tag(q[1], "op") >= 2,
                "called parameterless lambdas inside fusable stages"),
+    "applydef": (dict(prods=S("attr op app2 appdef app bin const".split()), seq_attrs=("jets",), int_attrs=("a", "pt")),
+                 lambda q: T.has_mode(q[1], "app2", (3, 4, 5)),
+                 "called lambdas with a defaulted second parameter (not passed / passed) and a keyword-only default"),
     "hof": (dict(prods=S("attr op hof app bin const".split()), seq_attrs=("jets",), int_attrs=("a", "pt")),
             lambda q: T.has(q[1], {"hof"}),
             "a lambda handed to a called lambda and applied through the parameter name"),
